@@ -24,7 +24,9 @@ META = {
             "short ones, simulated longer ones) for client protocols 754, 755, 756, 764, 765 (both sides of the 1.17 and 1.20.3 "
             "handler switches; the handler kind is the spec's ModeOf(protocol)); each history is replayed on gate's real "
             "handler with a recording fake player, every call under a watchdog, and TLC validates the recorded calls "
-            "line by line. Histories are the quantifier, so exhaustive short histories over all statuses plus random "
+            "line by line. The last call of a history may run with an injected write fault (client refuses the "
+            "prompt / first backend write fails); attempted writes are recorded and the report requirement stays. "
+            "Histories are the quantifier, so exhaustive short histories over all statuses plus random "
             "longer ones is the right level.",
     "design_ref": "DESIGN.md section 4, C27",
     "level_note": "A call that has not returned after the watchdog (3 s, confirmed by one re-run on a fresh handler) or "
@@ -83,7 +85,8 @@ def describe(o):
     if o["op"] == "queue":
         return "queue(%s)" % o["pack"]
     if o["op"] == "response":
-        return "response(%s%s)" % (("id%d," % o["sid"]) if o["sid"] else "", o["st"])
+        return "response(%s%s%s)" % (("id%d," % o["sid"]) if o["sid"] else "", o["st"],
+                                     (",%s-write-fails" % o["fail"]) if o.get("fail") else "")
     if o["op"] == "remove":
         return "remove(id%d)" % o["sid"]
     return o["op"]
@@ -102,7 +105,7 @@ def run(ctx):
     versions = [754, 755, 756, 764, 765]
     hists, model_states = [], 0
     if ctx.quick:
-        plans = [(["A", "C"], CORE, 3, None, 0), (["A", "B", "C", "D"], ALL, 6, 120, 1000)]
+        plans = [(["A", "C"], CORE, 3, None, 0), (["A", "B", "C", "D"], ALL, 6, 100, 700)]
     else:
         plans = [(["A", "C"], CORE, 4, None, 0), (["B", "D"], ALL, 3, None, 0), (["A", "B", "C", "D"], ALL, 7, 1500, 20000)]
     for packs, statuses, maxlen, sim, cap in plans:
@@ -112,6 +115,11 @@ def run(ctx):
         if not hs:
             raise vlib.ToolError("no histories exported")
         model_states += r.distinct
+        if ctx.quick and not sim:
+            # quick: every legacy history, a seeded sample of the (much more numerous) modern ones
+            mod = [h for h in hs if h["mode"] == "modern"]
+            rnd.shuffle(mod)
+            hs = [h for h in hs if h["mode"] != "modern"] + mod[:1300]
         if sim and len(hs) > cap:
             # the simulator evaluates (and exports) every successor of the states on its random
             # traces: keep a seeded sample
